@@ -1,0 +1,27 @@
+//go:build verif
+
+// Export shims for the verification harness under /verif (build tag "verif" only), property C07.
+// Add-only: no existing line is changed.
+package model
+
+import (
+	"k8s.io/apimachinery/pkg/types"
+
+	"istio.io/istio/pkg/config"
+)
+
+// VerifC07ServicesExportedToNamespace exposes PushContext.servicesExportedToNamespace (the scan-path
+// candidate list: services exported to ns followed by public services).
+func VerifC07ServicesExportedToNamespace(ps *PushContext, ns string) []*Service {
+	return ps.servicesExportedToNamespace(ns)
+}
+
+// VerifC07DestinationRule exposes PushContext.destinationRule: for every consolidated rule returned
+// for (proxy namespace, service) the names of the DestinationRules merged into it and the rule itself.
+func VerifC07DestinationRule(ps *PushContext, proxyNamespace string, svc *Service) (from [][]types.NamespacedName, rules []*config.Config) {
+	for _, cdr := range ps.destinationRule(proxyNamespace, svc) {
+		from = append(from, cdr.GetFrom())
+		rules = append(rules, cdr.GetRule())
+	}
+	return from, rules
+}
